@@ -1859,6 +1859,7 @@ StorageReflectSession :: CloneDataNodeSubtree(const DataNode & node, const Strin
       DataNode * clone = GetDataNode(destPath);
       if (clone)
       {
+         _indexingPresent = true;  // disable optimization in GetDataCallback():  our own client needs to be told about the clone's index
          const uint32 idxLen = index->GetNumItems();
          uint32 writeIdxCounter = 0;
          for (uint32 i=0; i<idxLen; i++)
